@@ -29,7 +29,8 @@ def cutoff(a, b, tol):
 @st.composite
 def case_st(draw):
     n = draw(st.integers(2, 5))
-    tols = sorted(draw(st.lists(gen.log_uniform(1e-16, 0.5), min_size=2, max_size=3, unique=True)))
+    tol_st = gen.log_uniform(1e-16, 0.5) | st.sampled_from([1e-16, 2e-16, 2.3e-16, 1e-15, 0.5])  # both ends of the range
+    tols = sorted(draw(st.lists(tol_st, min_size=2, max_size=3, unique=True)))
     protos = [draw(gen.shell(st.integers(0, 3), [0, 0, 0], kmax=4, mmax=2, exp_lo=0.05, exp_hi=500.0)) for _ in range(n)]
     cents = [[0.0, 0.0, 0.0]]
     # second shell at (1 +- 1e-9) x cutoff of a drawn tolerance from the first
